@@ -149,6 +149,18 @@ theorem mergeTexts_textData : ∀ (ks : List Node), textDataL (mergeTexts ks) = 
     simp only [textDataL, ih]
   | case3 => rfl
 
+mutual
+theorem mergeDeep_textData : (n : Node) → (mergeDeep n).textData = n.textData
+  | .text _ _ => rfl
+  | .other _ _ => rfl
+  | .elem i t a ks => by
+    simp only [mergeDeep, Node.textData]
+    rw [mergeTexts_textData, mergeDeepL_textData ks]
+theorem mergeDeepL_textData : (ks : List Node) → textDataL (mergeDeepL ks) = textDataL ks
+  | [] => rfl
+  | k :: ks => by simp only [mergeDeepL, textDataL, mergeDeep_textData k, mergeDeepL_textData ks]
+end
+
 /-! ## the whole of `Text.GenerateOutput`'s clone -/
 
 /-- the root the loop starts from, before the body step -/
@@ -216,7 +228,7 @@ merge) up to white space trimmed at the two ends -/
 theorem body_step_text (i : Nat) (attrs : List Attr) (ks : List Node) :
     ∃ ks', bodyToDiv (.elem i "body" attrs ks) = .elem synthDivId "div" [] (trimLastText (trimFirstText ks')) ∧
       textDataL ks' = textDataL ks :=
-  ⟨mergeTexts ks, rfl, mergeTexts_textData ks⟩
+  ⟨mergeTexts (mergeDeepL ks), rfl, by rw [mergeTexts_textData, mergeDeepL_textData]⟩
 
 /-! ## totality (C01): the nil dereferences of `Text.GenerateOutput` are unreachable -/
 
